@@ -188,6 +188,30 @@ AddComponent(e, c) ==
             Commit(Announce(w2, e, c))
     /\ ret' = <<"ok", 0, "-">> /\ Same
 
+\* Re-entrant lifecycle callbacks ("reentrant" family; dispatching enabled):
+\* (a) a component that detaches itself from inside its own on_add (a one-shot initialiser): when add_component
+\*     returns it is neither attached nor registered, and it heard on_add and on_remove once each
+AddSelfRemoving(e, c) ==
+    /\ "reentrant" \in Acts /\ "add" \in Acts /\ enabled /\ Free(c) /\ "on_add" \in Decl[c]
+    /\ LET t == TypeOf[c]
+           w1 == IF t \in DOMAIN Row(rows, e) THEN Detach(W0, e, t) ELSE W0
+           w2 == Announce(Tables(w1, e, c), e, c) IN
+       Commit(Detach(w2, e, t))
+    /\ ret' = <<"ok", 0, "-">> /\ Same
+\* (b) create_entity(c, d) where the on_add of c disables dispatching (a pause / loading-screen component): the
+\*     callbacks of the components that follow in the same call are postponed, not called
+CreateDisabling(id, c, d) ==
+    /\ "reentrant" \in Acts /\ "create" \in Acts /\ enabled /\ selfReg /\ Free(c) /\ Free(d) /\ c # d
+    /\ TypeOf[c] # TypeOf[d] /\ "on_add" \in Decl[c] /\ Len(queue) + 1 <= MaxQ
+    /\ LET cs == <<c, d>>
+           w1 == CreateTables(W0, id, cs)
+           w2 == Announce(w1, id, c)
+           w3 == IF IsHandler(d) THEN [w2 EXCEPT !.reg = @ \cup {d}] ELSE w2
+           w4 == IF "on_add" \in Decl[d] THEN [w3 EXCEPT !.queue = Append(@, <<"on_add", d, id, TRUE>>)] ELSE w3 IN
+       Commit(w4)
+    /\ enabled' = FALSE /\ ret' = <<"id", id, "-">>
+    /\ PK /\ UNCHANGED <<nextAuto, selfReg, procs, pprio, pworld, bad>>
+
 \* --- remove_component(e, T): exact type first, else one of the subclass components --------------
 RemoveComponent(e, T) ==
     /\ "remove" \in Acts /\ QRoom(1)
@@ -330,6 +354,16 @@ ProcessKiller(dt, c, e2) ==
     /\ ret' = <<"ok", 0, "-">>
     /\ PK /\ UNCHANGED <<nextAuto, enabled, selfReg, procs, pprio, pworld, bad>>
 
+\* like ProcessKiller, but the callback only *schedules* the other entity (deferred delete_entity from inside the
+\* sweep): the sweep re-reads the pending marks, so the scheduled entity goes in the same frame
+ProcessScheduler(dt, c, e2) ==
+    /\ "fault" \in Acts /\ "process" \in Acts /\ enabled /\ "on_remove" \in Decl[c] /\ ClearDeadGuards /\ GhostMarks = {}
+    /\ e2 \in DOMAIN rows
+    /\ \E e \in DeadRows \ {e2} : \E t \in DOMAIN rows[e] : rows[e][t] = c
+    /\ Commit(RunProcs(ApplyDeferred(W0, dead \cup {e2}), procs, dt, "none"))
+    /\ ret' = <<"ok", 0, "-">>
+    /\ PK /\ UNCHANGED <<nextAuto, enabled, selfReg, procs, pprio, pworld, bad>>
+
 \* --- clear() -------------------------------------------------------------------------------------------
 RECURSIVE RemoveAllProcs(_, _)
 RemoveAllProcs(w, s) == IF s = <<>> THEN w ELSE RemoveAllProcs(RemoveProcInst(w, s, Head(s))[1], Tail(s))
@@ -417,6 +451,9 @@ Next == \/ (\E id \in Ids \cup {NoEnt}, cs \in CompSeqs : CreateEntity(id, cs))
         \/ (\E dt \in Dts, c \in Comps : ProcessRemoveFault(dt, c))
         \/ (\E dt \in Dts, c \in Comps, e2 \in Ids : ProcessKiller(dt, c, e2))
         \/ (\E dt \in Dts, p \in Procs, T \in PTypes : ProcessRemover(dt, p, T))
+        \/ (\E dt \in Dts, c \in Comps, e2 \in Ids : ProcessScheduler(dt, c, e2))
+        \/ (\E e \in Ids, c \in Comps : AddSelfRemoving(e, c))
+        \/ (\E id \in Ids, c \in Comps, d \in Comps : CreateDisabling(id, c, d))
         \/ (\E i \in 1..MaxQ : SetEnabledFault(i))
         \/ Clear
         \/ (\E b \in BOOLEAN : SetEnabled(b))
